@@ -6,8 +6,11 @@ Spec for C19: the Pushgateway's reading of a request path, written from the prop
   * a name ending in `@base64` carries a URL-safe base64 value: trailing `=` are trimmed and the rest is decoded
     without padding (Go: `base64.RawURLEncoding.DecodeString(strings.TrimRight(s, "="))`), so the lone `=` is the
     empty string; the label name is the segment without the suffix;
-  * any other value is URL-unescaped: `+` → space, `%XX` → the byte, everything else its own UTF-8 bytes; the
-    bytes must be UTF-8;
+  * any other value is URL-unescaped: `%XX` → the byte, everything else its own UTF-8 bytes; the bytes must be
+    UTF-8.  TWO readings of `+` are specified, and the property must hold under both:
+      - `decodePathGo`: **path unescaping** — `+` is a literal plus.  This is what the Pushgateway does (Go's
+        `URL.Path` / `url.PathUnescape`);
+      - `decodePath`: **form decoding** — `+` → space (`unquote_plus`, Go's `url.QueryUnescape`);
   * no segment is empty: the HTTP server cleans `//` and a trailing `/` out of the path before routing, which is
     why the Pushgateway introduced `name@base64/=` for the empty value; the decoder rejects an empty segment;
   * a plain (non-base64) value never carries a `/`: the HTTP server unescapes `%2F` before routing, so a
@@ -59,24 +62,29 @@ def hexVal (c : Char) : Option Nat :=
   else if 'A' ≤ c && c ≤ 'F' then some (c.toNat - 55)
   else none
 
-/-- URL-unescape to bytes: `%XX` → byte, `+` → space, any other character stands for itself -/
-def unquoteBytes : List Char → Option (List UInt8)
+/-- URL-unescape to bytes: `%XX` → byte, any other character stands for itself; with `plus`, `+` → space -/
+def unquoteBytes (plus : Bool) : List Char → Option (List UInt8)
   | [] => some []
   | c :: rest =>
     if c = '%' then
       match rest with
       | h :: l :: rest' =>
-        match hexVal h, hexVal l, unquoteBytes rest' with
+        match hexVal h, hexVal l, unquoteBytes plus rest' with
         | some x, some y, some r => some (UInt8.ofNat (x * 16 + y) :: r)
         | _, _, _ => none
       | _ => none
-    else if c = '+' then (unquoteBytes rest).map (32 :: ·)
-    else (unquoteBytes rest).map (String.utf8EncodeChar c ++ ·)
+    else if plus && c = '+' then (unquoteBytes plus rest).map (32 :: ·)
+    else (unquoteBytes plus rest).map (String.utf8EncodeChar c ++ ·)
 termination_by s => s.length
 decreasing_by all_goals simp_all <;> omega
 
-/-- `unquote_plus(s)`, strict -/
-def unquotePlus (s : Str) : Option Str := (unquoteBytes s).bind utf8Decode?
+def unquoteWith (plus : Bool) (s : Str) : Option Str := (unquoteBytes plus s).bind utf8Decode?
+
+/-- `unquote_plus(s)`, strict (form decoding) -/
+def unquotePlus (s : Str) : Option Str := unquoteWith true s
+
+/-- `unquote(s)`, strict (path unescaping: `+` literal) -/
+def unquote (s : Str) : Option Str := unquoteWith false s
 
 /-- `s.split('/')` -/
 def splitSlash : Str → List Str
@@ -93,33 +101,41 @@ def base64Suffix : Str := ['@', 'b', 'a', 's', 'e', '6', '4']
 def stripSuffix? (suf s : Str) : Option Str :=
   if endsWith suf s then some (s.take (s.length - suf.length)) else none
 
-/-- one `name/value` pair of segments -/
-def decodePair (k v : Str) : Option (Str × Str) :=
+/-- one `name/value` pair of segments; `plus` selects the reading of `+` in a plain value -/
+def decodePairWith (plus : Bool) (k v : Str) : Option (Str × Str) :=
   if k = [] ∨ v = [] then none else
   match stripSuffix? base64Suffix k with
   | some k' => ((b64decode v).bind utf8Decode?).map (fun t => (k', t))
   | none =>
-    match unquotePlus v with
+    match unquoteWith plus v with
     | some t => if t.contains '/' then none else some (k, t)
     | none => none
 
 /-- pair up the segments and decode each pair; an odd number of segments is malformed -/
-def decodePairs : List Str → Option (List (Str × Str))
+def decodePairsWith (plus : Bool) : List Str → Option (List (Str × Str))
   | [] => some []
   | [_] => none
   | k :: v :: rest =>
-    match decodePair k v, decodePairs rest with
+    match decodePairWith plus k v, decodePairsWith plus rest with
     | some p, some r => some (p :: r)
     | _, _ => none
 
-/-- the labels a Pushgateway reads from the path after `/metrics/` -/
-def decodePath (path : Str) : Option (List (Str × Str)) := decodePairs (splitSlash path)
+def decodePathWith (plus : Bool) (path : Str) : Option (List (Str × Str)) := decodePairsWith plus (splitSlash path)
+
+/-- the labels a Pushgateway reads from the path after `/metrics/` (path unescaping, `+` literal) -/
+def decodePathGo (path : Str) : Option (List (Str × Str)) := decodePathWith false path
+
+/-- the same path under form decoding (`+` → space) -/
+def decodePath (path : Str) : Option (List (Str × Str)) := decodePathWith true path
 
 def metricsInfix : Str := ['/', 'm', 'e', 't', 'r', 'i', 'c', 's', '/']
 
 /-- the labels read from a whole URL, given the gateway's base URL -/
-def decodeUrl (base url : Str) : Option (List (Str × Str)) :=
-  if (base ++ metricsInfix).isPrefixOf url then decodePath (url.drop (base ++ metricsInfix).length) else none
+def decodeUrlWith (plus : Bool) (base url : Str) : Option (List (Str × Str)) :=
+  if (base ++ metricsInfix).isPrefixOf url then decodePathWith plus (url.drop (base ++ metricsInfix).length) else none
+
+def decodeUrlGo (base url : Str) : Option (List (Str × Str)) := decodeUrlWith false base url
+def decodeUrl (base url : Str) : Option (List (Str × Str)) := decodeUrlWith true base url
 
 /-- legacy label name `[a-zA-Z_][a-zA-Z0-9_]*` -/
 def isLabelStart (c : Char) : Bool := ('a' ≤ c && c ≤ 'z') || ('A' ≤ c && c ≤ 'Z') || c = '_'
